@@ -18,17 +18,20 @@ theorem map_upd_of_not_mem {α β : Type} (g : α → β) (f : Nat → α) (i : 
 
 /-! ### construction -/
 
-theorem fresh_inv (h : Nat → Nat) (cap : Nat) (hc : 0 < cap) : (fresh cap).Inv h := by
-  constructor <;> simp [fresh, hc]
+theorem fresh_inv (h : Nat → Nat) (cap ipb dcap : Nat) (hc : 0 < cap) (hk : 0 < ipb) (hd : 0 < dcap) :
+    (fresh cap ipb dcap).Inv h := by
+  constructor <;> simp [fresh, hc, hk, hd]
 
-theorem fresh_iterate (cap : Nat) : (fresh cap).iterate = [] := rfl
+theorem fresh_iterate (cap ipb dcap : Nat) : (fresh cap ipb dcap).iterate = [] := rfl
 
-theorem construct_inv (h : Nat → Nat) (c : Nat) : (construct c).Inv h := by
+theorem construct_inv (h : Nat → Nat) (ipb dcap c : Nat) (hk : 0 < ipb) (hd : 0 < dcap) :
+    (construct ipb dcap c).Inv h := by
   unfold construct
-  apply fresh_inv
+  apply fresh_inv _ _ _ _ _ hk hd
   split <;> omega
 
-theorem constructDefault_inv (h : Nat → Nat) : constructDefault.Inv h := fresh_inv h 500 (by decide)
+theorem constructDefault_inv (h : Nat → Nat) (ipb dcap : Nat) (hk : 0 < ipb) (hd : 0 < dcap) :
+    (constructDefault ipb dcap).Inv h := fresh_inv h dcap ipb dcap hd hk hd
 
 /-! ### a change of values only -/
 
@@ -50,6 +53,8 @@ theorem Table.Inv.set_value {h : Nat → Nat} {t : Table} (hi : t.Inv h) (id v :
   · exact hi.free_disj
   · exact hi.free_lt
   · exact hi.order_lt
+  · exact hi.ipb_pos
+  · exact hi.dcap_pos
 
 theorem set_value_iterate {h : Nat → Nat} {t : Table} (hi : t.Inv h) (id v : Nat) (hm : id ∈ t.order) :
     ({ t with items := upd t.items id { t.items id with value := v } } : Table).iterate
@@ -67,9 +72,9 @@ theorem set_value_iterate {h : Nat → Nat} {t : Table} (hi : t.Inv h) (id v : N
 theorem Table.Inv.alloc {h : Nat → Nat} {t : Table} (hi : t.Inv h) (kind : Kind) :
     (t.allocItem kind).1 ∉ t.order ∧ (t.allocItem kind).1 ∉ (t.allocItem kind).2.1 ∧
     (t.allocItem kind).2.1.Nodup ∧
-    (∀ x ∈ (t.allocItem kind).2.1, x ∉ t.order ∧ x < 4 * (t.allocItem kind).2.2) ∧
-    (t.allocItem kind).1 < 4 * (t.allocItem kind).2.2 ∧
-    (∀ x ∈ t.order, x < 4 * (t.allocItem kind).2.2) := by
+    (∀ x ∈ (t.allocItem kind).2.1, x ∉ t.order ∧ x < t.ipb * (t.allocItem kind).2.2) ∧
+    (t.allocItem kind).1 < t.ipb * (t.allocItem kind).2.2 ∧
+    (∀ x ∈ t.order, x < t.ipb * (t.allocItem kind).2.2) := by
   unfold allocItem
   cases hf : t.free with
   | cons f rest =>
@@ -83,20 +88,27 @@ theorem Table.Inv.alloc {h : Nat → Nat} {t : Table} (hi : t.Inv h) (kind : Kin
     exact ⟨hd x (List.mem_cons_of_mem _ hx), hl x (List.mem_cons_of_mem _ hx)⟩
   | nil =>
     have ho := hi.order_lt
-    by_cases hk : kind = Kind.pool
-    · simp only [hk, if_true]
-      refine ⟨fun hm => ?_, by simp, by simp, ?_, by omega, fun x hx => ?_⟩
+    have hk := hi.ipb_pos
+    have hmul : t.ipb * (t.blocks + 1) = t.ipb * t.blocks + t.ipb := Nat.mul_succ _ _
+    generalize t.ipb * t.blocks = B at ho hmul
+    by_cases hkind : kind = Kind.pool
+    · simp only [hkind, if_true, hmul]
+      refine ⟨fun hm => ?_, ?_, nodup_pushRange _ _ _ List.nodup_nil (by simp), ?_, by omega, fun x hx => ?_⟩
       · have := ho _ hm; omega
+      · rw [mem_pushRange]; simp only [List.not_mem_nil, or_false]; omega
       · intro x hx
-        simp only [List.mem_cons, List.not_mem_nil, or_false] at hx
+        rw [mem_pushRange] at hx
+        simp only [List.not_mem_nil, or_false] at hx
         refine ⟨fun hm => ?_, by omega⟩
         have := ho _ hm; omega
       · have := ho _ hx; omega
-    · simp only [hk, if_false]
-      refine ⟨fun hm => ?_, by simp, by simp, ?_, by omega, fun x hx => ?_⟩
+    · simp only [hkind, if_false, hmul]
+      refine ⟨fun hm => ?_, ?_, nodup_pushRange _ _ _ List.nodup_nil (by simp), ?_, by omega, fun x hx => ?_⟩
       · have := ho _ hm; omega
+      · rw [mem_pushRange]; simp only [List.not_mem_nil, or_false]; omega
       · intro x hx
-        simp only [List.mem_cons, List.not_mem_nil, or_false] at hx
+        rw [mem_pushRange] at hx
+        simp only [List.not_mem_nil, or_false] at hx
         refine ⟨fun hm => ?_, by omega⟩
         have := ho _ hm; omega
       · have := ho _ hx; omega
@@ -189,6 +201,8 @@ theorem Table.Inv.linkNew {h : Nat → Nat} {t : Table} (hi : t.Inv h) (kind : K
       rcases (mem_insertAt pos id x t.order).1 hx with e | e
       · subst e; exact a_lt
       · exact a_olt x e
+    · exact hi.ipb_pos
+    · exact hi.dcap_pos
   · simp only [Table.iterate_eq]
     rw [map_insertAt, upd_same]
     congr 1
@@ -316,6 +330,8 @@ theorem Table.Inv.removeItem {h : Nat → Nat} {t : Table} (hi : t.Inv h) (id : 
       · exact hi.free_lt x e
     · intro x hx
       exact hi.order_lt x (List.mem_of_mem_erase hx)
+    · exact hi.ipb_pos
+    · exact hi.dcap_pos
   · simp only [Table.iterate_eq, Table.removeItem]
     exact erase_map_eraseIdx _ t.order (posOf id t.order) id hon (getElem?_posOf id t.order hm)
   · simp only [Table.iterate_eq, Table.removeItem, Spec.removeKey]
@@ -420,5 +436,7 @@ theorem Table.Inv.clear {h : Nat → Nat} {t : Table} (hi : t.Inv h) :
     · exact hi.order_lt x e
     · exact hi.free_lt x e
   · intro x hx; simp [Table.clear] at hx
+  · exact hi.ipb_pos
+  · exact hi.dcap_pos
 
 end Nstd.Hash
